@@ -73,7 +73,13 @@ def build(case, rng, pre):
             compute_val(m)
     if pre.get("compute_mid"):
         compute_val(m)
-    if pre.get("to_mid"):
+    if pre.get("to_mid") == "toolkit":
+        from torcheval.metrics.toolkit import to_device
+        o = basecalls.make(name, kw, cls)
+        ret = to_device([o, m], torch.device("cpu"))
+        if len(ret) != 2 or ret[1] is not m:
+            raise AssertionError("toolkit.to_device did not return the metrics it was given")
+    elif pre.get("to_mid"):
         m.to("cpu")          # moving an already-updated metric (even to the same device) must not redefine its defaults
     if pre.get("load_mid"):
         # a checkpoint round trip inside the history: restore into the SAME object
@@ -95,7 +101,7 @@ def build(case, rng, pre):
 
 def gen_pre(rng):
     return {"updates": rng.choice([0, 1, 2, 2, 4, 7]), "merge": rng.choice([0, 0, 1, 2]), "reset_mid": rng.random() < 0.15,
-            "compute_mid": rng.random() < 0.5, "load_mid": rng.random() < 0.3, "to_mid": rng.random() < 0.3}
+            "compute_mid": rng.random() < 0.5, "load_mid": rng.random() < 0.3, "to_mid": rng.choice([False, False, False, True, "toolkit"])}
 
 
 def same(a, b):
@@ -103,7 +109,7 @@ def same(a, b):
 
 
 # ---- C09 --------------------------------------------------------------------------------------
-RESTORES = ("load", "pickle", "clone_metric", "deepcopy")
+RESTORES = ("load", "pickle", "clone_metric", "deepcopy", "clone_metrics")
 
 
 def restore(case, m, how):
@@ -117,6 +123,21 @@ def restore(case, m, how):
     if how == "clone_metric":
         from torcheval.metrics.toolkit import clone_metric
         return clone_metric(m)
+    if how == "clone_metrics":
+        # the collection form: the metric between two other updated metrics of the same kind; EVERY element must be cloned
+        from torcheval.metrics.toolkit import clone_metrics
+        rng = random.Random(17)
+        d1 = build(case, rng, {"updates": 1, "merge": 0})
+        d2 = build(case, rng, {"updates": 2, "merge": 0})
+        for coll in ((d1, m, d2), [d1, m, d2]):
+            out = clone_metrics(coll)
+            if len(out) != 3 or any(o is x for o, x in zip(out, coll)):
+                raise AssertionError("clone_metrics did not return one NEW object per input metric")
+            for o, x in zip(out, coll):
+                d = same(compute_val(x), compute_val(o)) or same(registered_state(x), registered_state(o))
+                if d:
+                    raise AssertionError(f"clone_metrics: a clone differs from its original: {d}")
+        return out[1]
     return copy.deepcopy(m)
 
 
@@ -190,7 +211,23 @@ def c10_case(case, seed, pre, ncont):
     label, name, kw, call, cls = case
     rng = random.Random(seed)
     m = build(case, rng, pre)
-    m.reset()
+    if seed % 3 == 0:
+        # the collection form toolkit.reset_metrics: EVERY metric of the collection is reset, the same objects come back
+        from torcheval.metrics.toolkit import reset_metrics
+        r2 = random.Random(seed + 1)
+        d1 = build(case, r2, {"updates": 2, "merge": 0})
+        d2 = build(case, r2, {"updates": 1, "merge": 1})
+        coll = (d1, m, d2) if seed % 2 else [d1, m, d2]
+        ret = reset_metrics(coll)
+        if len(list(ret)) != 3 or any(a is not b for a, b in zip(ret, coll)):
+            return "toolkit.reset_metrics did not return the metrics it was given"
+        f0 = basecalls.make(name, kw, cls)
+        for x in (d1, d2):
+            d = same(compute_val(f0), compute_val(x)) or same(full_state(f0), full_state(x))
+            if d:
+                return f"toolkit.reset_metrics left a metric of the collection un-reset: {d}"
+    else:
+        m.reset()
     f = basecalls.make(name, kw, cls)
     d = same(compute_val(f), compute_val(m))
     if d:
